@@ -68,7 +68,11 @@ impl ResponseCache {
             }
             Err(_) => return,
         };
-        let valid_until = now + ttl;
+        // A lifetime that `Instant` cannot represent (a configured minimum of billions of years)
+        // must not panic: cap it at the largest TTL the DNS can express.
+        let valid_until = now
+            .checked_add(ttl)
+            .unwrap_or_else(|| now + Duration::from_secs(u64::from(u32::MAX)));
         self.cache.insert(
             query,
             Entry {
@@ -338,9 +342,12 @@ impl TtlConfig {
     /// for use when clamping individual record TTLs.
     fn positive_ttl_bounds_secs(&self, record_type: RecordType) -> (u32, u32) {
         let (min, max) = self.positive_response_ttl_bounds(record_type).into_inner();
+        // Saturate instead of falling back to `MAX_TTL`: with the fallback an ordered pair such as
+        // (100_000 s, 2^32 s) became (100_000, 86_400) and `u32::clamp` panicked, and a maximum of
+        // 2^32 s or more silently cut every record TTL to one day.
         (
-            u32::try_from(min.as_secs()).unwrap_or(MAX_TTL),
-            u32::try_from(max.as_secs()).unwrap_or(MAX_TTL),
+            u32::try_from(min.as_secs()).unwrap_or(u32::MAX),
+            u32::try_from(max.as_secs()).unwrap_or(u32::MAX),
         )
     }
 
